@@ -234,6 +234,9 @@ class LocalAnomalyScore(BaseLocalAnomalyScore):
             Reference to self.
         """
         self._interval_cost.fit(X)
+        # Re-clone here, so that the cost used on the surrounding data has the same
+        # hyper-parameters as `cost` also when they were changed after `__init__`.
+        self._any_subset_cost = self.cost.clone()
         return self
 
     def _evaluate(self, cuts: np.ndarray) -> np.ndarray:
